@@ -1462,7 +1462,16 @@ int xmpp_conn_restore_sm_state(xmpp_conn_t *conn,
     return XMPP_EOK;
 
 err_reload:
+    /* drop the partially loaded send queue again */
+    while (conn->send_queue_head) {
+        xmpp_send_queue_t *item = conn->send_queue_head;
+        conn->send_queue_head = item->next;
+        strophe_free(conn->ctx, queue_element_free(conn->ctx, item));
+    }
+    conn->send_queue_tail = NULL;
+    conn->send_queue_user_len = conn->send_queue_len = 0;
     xmpp_free_sm_state(conn->sm_state);
+    conn->sm_state = NULL;
     return ret;
 }
 
